@@ -124,7 +124,13 @@ func runFullTipWithheld(r *vk.Run, keys world.Keys, id int) {
 		return
 	}
 	r.Hit("self-wakeup-below-an-incomplete-tip")
-	if waitD(getD, want) {
+	// generous: the inclusion loop only has to be scheduled once; on a machine under heavy load that can take a while, and
+	// a late pass is not a missing wake-up
+	reached := waitD(getD, want)
+	for i := 0; i < 5 && !reached; i++ {
+		reached = waitD(getD, want)
+	}
+	if reached {
 		r.Eval(fmt.Sprintf("tip-withheld %d", id), true, wit)
 		return
 	}
